@@ -22,7 +22,11 @@ def table_walorder():
       the run's own edges were filtered (as the read path does);
     * whether WriteTxn::set_vector stages the vector (no direct call of insert_vector);
     * whether extend_{node,edge}_properties_from_store keep the FIRST scanned (newest) store entry of a key
-      (`props.entry(key_name).or_insert(..)`) or the last one (`props.insert(key_name, ..)`)."""
+      (`props.entry(key_name).or_insert(..)`) or the last one (`props.insert(key_name, ..)`);
+    * whether the property sinking of GraphEngine::compact (in compact itself or in the helper it calls) reads
+      `tree.root()` only AFTER the insert loops (BTree::insert may allocate a new root page);
+    * whether the sinking loops replace the store entry of a key (replace_property_entry: delete every entry of
+      the key, then insert) or add one more entry per compaction."""
     eng = src("nervusdb-storage/src/engine.rs")
     body = impl_fn_body(eng, r"impl<'a>\s+WriteTxn<'a>", "commit")
     seq = [k for k in re.findall(r"wal\s*\.\s*append\(\s*&WalRecord::(\w+)", body) if k not in ("BeginTx", "CommitTx")]
@@ -58,6 +62,44 @@ def table_walorder():
     kn, ke = keeps_first("extend_node_properties_from_store"), keeps_first("extend_edge_properties_from_store")
     if kn != ke:
         raise ValueError("extend_node/edge_properties_from_store differ")
+    # property sinking of compact: where is `tree.root()` read relative to the insert loop(s)?
+    fn_names = re.findall(r"\bfn\s+(\w+)", eng)
+    sinks = []
+    for nm in dict.fromkeys(fn_names):
+        try:
+            b = fn_body(eng, nm)
+        except ValueError:
+            continue
+        if re.search(r"\b(tree\s*\.\s*insert|replace_property_entry)\(", b) and re.search(r"BTree::(create|load)\(", b) \
+                and "BlobStore::write" in b:
+            sinks.append((nm, b))
+    # the innermost function that holds the loops (compact itself, or a helper it calls)
+    sinks = [(nm, b) for nm, b in sinks if not any(nm2 != nm and b2 in b for nm2, b2 in sinks)]
+    if len(sinks) != 1:
+        raise ValueError(f"property sinking: expected one function with the insert loops, got {[n for n, _ in sinks]}")
+    sb = sinks[0][1]
+    direct = [m.start() for m in re.finditer(r"\btree\s*\.\s*insert\(", sb)]
+    viarep = [m.start() for m in re.finditer(r"\breplace_property_entry\(", sb)]
+    if direct and viarep:
+        raise ValueError("property sinking: direct inserts and replace_property_entry mixed")
+    if viarep:
+        rb = fn_body(eng, "replace_property_entry")
+        i_del, i_ins = rb.find("tree.delete("), rb.find("tree.insert(")
+        if not (0 <= i_del < i_ins) or "cursor_lower_bound" not in rb or not re.search(r"\bloop\b|\bwhile\b", rb):
+            raise ValueError("replace_property_entry: delete-all-then-insert not recognised")
+    sink_replaces = bool(viarep)
+    ins = direct or viarep
+    roots = [m.start() for m in re.finditer(r"\btree\s*\.\s*root\(\)", sb)]
+    if not roots or len(ins) < 2:
+        raise ValueError("property sinking: tree.root() / the two insert loops not recognised")
+    if all(r > max(ins) for r in roots):
+        root_after = True
+    elif any(r < min(ins) for r in roots):
+        root_after = False
+    else:
+        raise ValueError("property sinking: tree.root() read between the insert loops")
+    if sinks[0][0] != "compact" and not re.search(r"\b" + sinks[0][0] + r"\s*\(", fn_body(eng, "compact")):
+        raise ValueError("property sinking: the function with the insert loops is not called by compact")
     out = ["-- regenerated by tools/extract.py from the current source; do not edit",
            "namespace Nervus.Generated",
            "/-- graph record kinds written by `WriteTxn::commit` -/",
@@ -74,6 +116,10 @@ def table_walorder():
            f"def setVectorStaged : Bool := {'true' if staged else 'false'}",
            "/-- read_path_property_store.rs extend_*_properties_from_store keep the newest store entry of a key -/",
            f"def extendKeepsNewest : Bool := {'true' if kn else 'false'}",
+           "/-- engine.rs compact: every `tree.root()` of the property sinking is read after the insert loops -/",
+           f"def compactReadsRootAfterInserts : Bool := {'true' if root_after else 'false'}",
+           "/-- engine.rs compact: a sunk value REPLACES the store entry of its key (delete, then insert) -/",
+           f"def compactSinkReplaces : Bool := {'true' if sink_replaces else 'false'}",
            "end Nervus.Generated"]
     return "\n".join(out) + "\n"
 
